@@ -31,6 +31,7 @@ type tierCfg struct {
 	BudgetS   int               `json:"budget_s"`
 	Vars      map[string]string `json:"vars"` // informational: harness bound variables
 	Skip      bool              `json:"skip"`
+	MaxTokens int               `json:"max_tokens"`
 }
 
 type harnessCfg struct {
@@ -283,7 +284,7 @@ func run() int {
 			Prog: prog, Pkg: pkg, Harness: h.Name, Jobs: *jobs,
 			MaxSteps: tc.MaxSteps, MaxPaths: tc.MaxPaths, TimeoutMS: tc.TimeoutMS,
 			SampleMax: 12, Seed: seed, InitPkgs: initPkgs, Verbose: *verbose,
-			NoBlockVio: h.NoBlockVio, Vars: tc.Vars,
+			NoBlockVio: h.NoBlockVio, Vars: tc.Vars, MaxTokens: tc.MaxTokens,
 		}
 		if tc.BudgetS > 0 {
 			cfg.Deadline = time.Now().Add(time.Duration(tc.BudgetS) * time.Second)
